@@ -81,7 +81,7 @@ def main():
     if r.returncode in (0, 1):
         sys.exit(r.returncode)
     # abnormal end of the checker process
-    rdir = VERIF / "out" / "replays"
+    rdir = Path(os.environ.get("HYVERIF_REPLAY_DIR", str(VERIF / "out" / "replays")))
     rdir.mkdir(parents=True, exist_ok=True)
     path = rdir / f"{pid}_abnormal_exit.json"
     path.write_text(json.dumps({"property": pid, "what": "checker child ended abnormally",
@@ -92,8 +92,9 @@ def main():
                        "explanation": f"check process ended abnormally (rc={r.returncode})",
                        "samples": ["abnormal exit"]},
           "wall_s": round(time.time() - t0, 2), "violations": 1}
-    (VERIF / "evidence").mkdir(exist_ok=True)
-    (VERIF / "evidence" / f"{pid}.json").write_text(json.dumps(ev, indent=1))
+    edir = Path(os.environ.get("HYVERIF_EVIDENCE_DIR", str(VERIF / "evidence")))
+    edir.mkdir(parents=True, exist_ok=True)
+    (edir / f"{pid}.json").write_text(json.dumps(ev, indent=1))
     tail = "" if last is not None else " no-failing-input-found"
     print(f"VIOLATION property={pid} replay={path} check process ended abnormally "
           f"(rc={r.returncode}; the implementation crashed or the checker failed){tail}", flush=True)
